@@ -46,6 +46,7 @@ type hsState struct {
 	sp          uint8        // set of possible (status assigned, statusSet=true assigned) combinations on the paths joined here: bit (2*a+p)
 	statusFrom  types.Object // identifier most recently copied into b.status
 	committed   bool         // raw WriteHeader called on this path
+	owed        bool         // some path here found the status pending and has not committed it yet
 }
 
 func (s *hsState) clone() *hsState { c := *s; return &c }
@@ -243,8 +244,100 @@ func c13Run(r *Run) {
 			}
 		}
 	}
-	if fHeaderSent == nil || fStatus == nil || fStatusSet == nil {
-		r.fail("bufferedWriter: cannot identify the committed flag, the status field and the pending flag by their roles")
+	// the same two facts kept in one state field: an integer-kind field of a named type of this package
+	// whose constants are stored where the flags would be set — "committed" in the method that calls the
+	// raw WriteHeader, "pending" in a method that records the status without committing
+	var fPhase *types.Var
+	var cCommitted, cPending types.Object
+	if fHeaderSent == nil || fStatusSet == nil {
+		selField := func(e ast.Expr) *types.Var {
+			if se, ok := ast.Unparen(e).(*ast.SelectorExpr); ok {
+				if sl, ok := info.Selections[se]; ok {
+					if v, ok := sl.Obj().(*types.Var); ok {
+						return v
+					}
+				}
+			}
+			return nil
+		}
+		for i := 0; i < st.NumFields(); i++ {
+			f := st.Field(i)
+			if b, ok := f.Type().Underlying().(*types.Basic); ok && b.Info()&types.IsInteger != 0 {
+				if nt := namedOf(f.Type()); nt != nil && nt.Obj().Pkg() == pkg.Types {
+					fPhase = f
+				}
+			}
+		}
+		if fPhase != nil {
+			for _, fd := range funcDecls(pkg) {
+				if recvTypeName(fd) != "bufferedWriter" {
+					continue
+				}
+				callsRawWH, setsStatus := false, false
+				var stored []types.Object
+				ast.Inspect(fd.Body, func(n ast.Node) bool {
+					switch x := n.(type) {
+					case *ast.CallExpr:
+						if se, ok := ast.Unparen(x.Fun).(*ast.SelectorExpr); ok && se.Sel.Name == "WriteHeader" && selField(se.X) == fRaw {
+							callsRawWH = true
+						}
+					case *ast.AssignStmt:
+						for i, l := range x.Lhs {
+							switch selField(l) {
+							case fStatus:
+								setsStatus = true
+							case fPhase:
+								if i < len(x.Rhs) {
+									if id, ok := ast.Unparen(x.Rhs[i]).(*ast.Ident); ok {
+										if c, ok := info.Uses[id].(*types.Const); ok {
+											stored = append(stored, c)
+										}
+									}
+								}
+							}
+						}
+					}
+					return true
+				})
+				if callsRawWH && len(stored) == 0 && cCommitted == nil {
+					// the committing method may be the very place a defect forgets to store the state:
+					// fall back on the constant its guard compares the state with
+					ast.Inspect(fd.Body, func(n ast.Node) bool {
+						if be, ok := n.(*ast.BinaryExpr); ok && (be.Op == token.EQL || be.Op == token.NEQ) && cCommitted == nil {
+							var other ast.Expr
+							if selField(be.X) == fPhase {
+								other = be.Y
+							} else if selField(be.Y) == fPhase {
+								other = be.X
+							}
+							if other != nil {
+								if id, ok := ast.Unparen(other).(*ast.Ident); ok {
+									if c, ok := info.Uses[id].(*types.Const); ok {
+										cCommitted = c
+									}
+								}
+							}
+						}
+						return true
+					})
+				}
+				if len(stored) == 0 {
+					continue
+				}
+				if callsRawWH && cCommitted == nil {
+					cCommitted = stored[0]
+				}
+				if !callsRawWH && setsStatus && cPending == nil {
+					cPending = stored[0]
+				}
+			}
+		}
+		if fPhase == nil || cCommitted == nil || cPending == nil || cCommitted == cPending {
+			fPhase = nil
+		}
+	}
+	if fStatus == nil || ((fHeaderSent == nil || fStatusSet == nil) && fPhase == nil) {
+		r.fail("bufferedWriter: cannot identify the committed flag, the status field and the pending flag (or a state field with a committed and a pending value) by their roles")
 		return
 	}
 	fieldOf := func(e ast.Expr) *types.Var {
@@ -260,6 +353,65 @@ func c13Run(r *Run) {
 		return nil
 	}
 	isRawExpr := func(e ast.Expr) bool { return fieldOf(e) == fRaw }
+	constObj := func(e ast.Expr) types.Object {
+		if id, ok := ast.Unparen(e).(*ast.Ident); ok {
+			if c, ok := info.Uses[id].(*types.Const); ok {
+				return c
+			}
+		}
+		return nil
+	}
+	// phaseCmp: e is `phase == K` / `phase != K`; returns K and whether the comparison is an equality
+	phaseCmp := func(e ast.Expr) (types.Object, bool, bool) {
+		be, ok := ast.Unparen(e).(*ast.BinaryExpr)
+		if !ok || fPhase == nil || (be.Op != token.EQL && be.Op != token.NEQ) {
+			return nil, false, false
+		}
+		var k types.Object
+		switch {
+		case fieldOf(be.X) == fPhase:
+			k = constObj(be.Y)
+		case fieldOf(be.Y) == fPhase:
+			k = constObj(be.X)
+		}
+		return k, be.Op == token.EQL, k != nil
+	}
+	// sentTest: what outcome `truth` of e says about "the header is committed": 2 yes, 1 no, 0 nothing
+	sentTest := func(e ast.Expr, truth bool) int {
+		if fPhase == nil {
+			if fieldOf(e) == fHeaderSent {
+				if truth {
+					return 2
+				}
+				return 1
+			}
+			return 0
+		}
+		k, eq, ok := phaseCmp(e)
+		if !ok {
+			return 0
+		}
+		holds := eq == truth
+		switch {
+		case k == cCommitted && holds:
+			return 2
+		case k == cCommitted:
+			return 1
+		case holds:
+			return 1 // the state is some other value
+		}
+		return 0
+	}
+	// mentionsPending: the expression consults the pending state
+	mentionsPending := func(e ast.Expr) bool {
+		if fPhase == nil {
+			return fieldOf(e) == fStatusSet
+		}
+		if k, _, ok := phaseCmp(e); ok && k == cPending {
+			return true
+		}
+		return constObj(e) == cPending
+	}
 
 	// own methods
 	methods := map[*types.Func]*ast.FuncDecl{}
@@ -299,7 +451,42 @@ func c13Run(r *Run) {
 				reports = append(reports, siteReport{rule, fk + "#" + key, msg, pos, ok})
 			}
 		}
+		testsPending := false
+		ast.Inspect(fd.Body, func(n ast.Node) bool {
+			switch x := n.(type) {
+			case *ast.IfStmt:
+				ast.Inspect(x.Cond, func(m ast.Node) bool {
+					if e, ok := m.(ast.Expr); ok && mentionsPending(e) {
+						testsPending = true
+					}
+					return true
+				})
+			case *ast.SwitchStmt:
+				if x.Tag != nil && fPhase != nil && fieldOf(x.Tag) == fPhase {
+					testsPending = true
+				}
+			}
+			return true
+		})
 		h := &Hooks{Info: info}
+		h.CaseMatch = func(tag, val ast.Expr, truth bool, st State) State {
+			s := st.(*hsState)
+			if fPhase != nil && fieldOf(tag) == fPhase {
+				k := constObj(val)
+				switch {
+				case k == cCommitted && truth:
+					s.sent, s.testedFalse, s.owed = 2, false, false
+				case k == cCommitted:
+					s.sent, s.testedFalse = 1, true
+				case k != nil && truth:
+					s.sent, s.testedFalse = 1, true
+					if k == cPending {
+						s.owed = true
+					}
+				}
+			}
+			return s
+		}
 		h.Copy = func(s State) State { return s.(*hsState).clone() }
 		h.Join = func(a, b State) State {
 			x, y := a.(*hsState), b.(*hsState)
@@ -313,19 +500,23 @@ func c13Run(r *Run) {
 				n.statusFrom = nil
 			}
 			n.committed = x.committed || y.committed
+			n.owed = x.owed || y.owed
 			return n
 		}
 		h.Equal = func(a, b State) bool { return *a.(*hsState) == *b.(*hsState) }
 		h.Cond = func(e ast.Expr, truth bool, st State) State {
 			s := st.(*hsState)
-			if fieldOf(e) == fHeaderSent {
-				if truth {
-					s.sent = 2
-					s.testedFalse = false
-				} else {
-					s.sent = 1
-					s.testedFalse = true
-				}
+			switch sentTest(e, truth) {
+			case 2:
+				s.sent = 2
+				s.testedFalse = false
+				s.owed = false
+			case 1:
+				s.sent = 1
+				s.testedFalse = true
+			}
+			if truth && mentionsPending(e) && s.sent != 2 {
+				s.owed = true
 			}
 			return s
 		}
@@ -360,6 +551,7 @@ func c13Run(r *Run) {
 					}
 					s.testedFalse = false
 					s.committed = true
+					s.owed = false
 				case "Write":
 					good := s.sent == 2
 					m := "body write after the header commit"
@@ -411,6 +603,7 @@ func c13Run(r *Run) {
 				}
 				if ensures[callee] {
 					s.sent = 2
+					s.owed = false
 					s.testedFalse = false
 				} else if callee.Name() != "Header" {
 					// unknown effect on the flag
@@ -431,6 +624,35 @@ func c13Run(r *Run) {
 			}
 			for i, l := range as.Lhs {
 				f := fieldOf(l)
+				if f == nil {
+					continue
+				}
+				if fPhase != nil && f == fPhase {
+					var k types.Object
+					if len(as.Rhs) == len(as.Lhs) {
+						k = constObj(as.Rhs[i])
+					}
+					switch {
+					case k == cCommitted:
+						s.sent = 2
+					case k == cPending:
+						good := s.sent == 1
+						m := "the pending state is entered where the header is known not to be committed"
+						if !good {
+							m = "the state is set to pending on a path where the header may already have been sent: the commit-once state is lost"
+						}
+						rep("C13-FROZEN", "assign:statusSet", l.Pos(), good, m)
+						s.sp = spMap(s.sp, func(a, p bool) (bool, bool) { return a, true })
+					default:
+						if s.sent != 1 {
+							rep("C13-SINGLE", "headerSent-cleared", l.Pos(), false, "the state field is assigned a value other than committed on a path where the header may already have been sent: the commit-once state can be reset")
+						}
+						if s.sent != 1 {
+							s.sent = 0
+						}
+					}
+					continue
+				}
 				switch f {
 				case fHeaderSent:
 					val := ""
@@ -479,6 +701,14 @@ func c13Run(r *Run) {
 			s := st.(*hsState)
 			if s.sent != 2 {
 				allSent = false
+			}
+			if testsPending {
+				good := !s.owed
+				m := "where the status is found pending the header is committed before the method returns"
+				if !good {
+					m = "the method finds the status pending (recorded, header not sent) and returns without committing it: a status-only response (204, redirect without body) is never sent"
+				}
+				rep("C13-PENDING", "pending-arm-commits", p, good, m)
 			}
 			if s.committed {
 				good := s.sent == 2
@@ -737,11 +967,21 @@ func c13Run(r *Run) {
 		ast.Inspect(fd.Body, func(n ast.Node) bool {
 			if is, ok := n.(*ast.IfStmt); ok {
 				ast.Inspect(is.Cond, func(m ast.Node) bool {
-					if e, ok := m.(ast.Expr); ok && fieldOf(e) == fStatusSet {
+					if e, ok := m.(ast.Expr); ok && mentionsPending(e) {
 						reads = true
 					}
 					return true
 				})
+			}
+			// switch b.phase { case phaseStaged: … }
+			if sw, ok := n.(*ast.SwitchStmt); ok && sw.Tag != nil && fPhase != nil && fieldOf(sw.Tag) == fPhase {
+				for _, c := range sw.Body.List {
+					for _, v := range c.(*ast.CaseClause).List {
+						if constObj(v) == cPending {
+							reads = true
+						}
+					}
+				}
 			}
 			return true
 		})
